@@ -171,13 +171,26 @@ inductive Canon (e : Env) : Val → List OT → Prop
       Canon e (.block ty info fields children comments)
         (if ht then (sortGE e.code (gesFrom e.symbols 0 arms children sub ++ comments.map cmtGE)).map (·.ot) else [])
 
-/-- the offsets the writer uses (after the `fix:` commit): inside every tagged part, an item with offset 0 directly
-    behind a line comment gets offset 1 (`flag` = `after_line_comment`) -/
+/-- does the text of a block's content — its parameters `fields`, then `items` as they are written — end inside a
+    `//` comment, as the writer's `ends_in_line_comment` sees it? (Rendered at indent level 0: the indentation does not
+    matter, `endsInLineComment_body` in Writer.lean.) -/
+def OT.endsLC (fields : List Val) (items : List OT) : Bool :=
+  endsInLineComment (renderToks (fieldsToks 0 fields ++ OT.toksL 0 items))
+
+/-- the end offset the writer uses (after the second `fix:` commit): the `/end` of a block whose content ends in a line
+    comment is written with offset 1 if its recorded offset is 0 (`endOffOf`); keywords have no `/end` -/
+def OT.fixEo (blk : Bool) (eo : Nat) (fields : List Val) (items : List OT) : Nat :=
+  if blk = true ∧ eo = 0 ∧ OT.endsLC fields items = true then 1 else eo
+
+/-- the offsets the writer uses (after the `fix:` commits): inside every tagged part, an item with offset 0 directly
+    behind a line comment gets offset 1 (`flag` = `after_line_comment`), and so does the `/end` of a block whose
+    content ends in a line comment (`OT.fixEo`) -/
 def OT.fixL : Bool → List OT → List OT
   | _, [] => []
   | alc, .cmt text off :: rest => .cmt text (bumpOff alc off) :: OT.fixL (isLineCommentText text) rest
   | alc, .node arm tag blk ty so eo fields items :: rest =>
-    .node arm tag blk ty (bumpOff alc so) eo fields (OT.fixL false items) :: OT.fixL false rest
+    .node arm tag blk ty (bumpOff alc so) (OT.fixEo blk eo fields (OT.fixL false items)) fields (OT.fixL false items) ::
+      OT.fixL false rest
 
 def OT.itemsOf : OT → List OT
   | .node _ _ _ _ _ _ _ items => items
